@@ -14,20 +14,24 @@ GROUPS = {
 COMPONENTS = sorted(c for g in GROUPS.values() for c in g.split(","))
 
 
+# cases per group and process: (asan, plain)
+CASES = {"deque": (12000, 3000), "lists": (10000, 3000), "arrays": (12000, 3000), "pq": (8000, 2500),
+         "twolevel": (10000, 3000)}
+
+
 def c14(tier):
-    # cases per group: (asan, plain)
-    if tier == "quick":
-        n = {"deque": (5000, 1500), "lists": (4000, 1200), "arrays": (5000, 1500), "pq": (3000, 1000),
-             "twolevel": (4000, 1200)}
-    else:
-        n = {"deque": (60000, 20000), "lists": (50000, 15000), "arrays": (60000, 20000), "pq": (40000, 12000),
-             "twolevel": (50000, 15000)}
+    # thorough = the quick workload with 8 different sequence families (salt); the number of processes, not the
+    # size of one process, grows, so that the restart budget per process stays the same
+    salts = [0] if tier == "quick" else list(range(1, 9))
     runs = []
-    for g, comps in GROUPS.items():
-        runs.append(H("c14_containers", "asan", n[g][0], None, params=dict(comps=comps),
-                      timeout_per_case=1, timeout_base=300))
-        runs.append(H("c14_containers", "plain", n[g][1], None, params=dict(comps=comps),
-                      timeout_per_case=1, timeout_base=300))
+    for salt in salts:
+        for g, comps in GROUPS.items():
+            for i, cfg in enumerate(("asan", "plain")):
+                params = dict(comps=comps)
+                if salt:
+                    params["salt"] = salt
+                runs.append(H("c14_containers", cfg, CASES[g][i], None, params=params,
+                              timeout_per_case=1, timeout_base=300))
     return runs
 
 
@@ -63,7 +67,7 @@ SPEC = dict(
         "LargeArray: every element is constructed before destroy()/~LargeArray() run, and destroy() is always followed by deallocate() or construct() (the destructor destroys again otherwise)",
         "PODResizeableArray::assign is not called with an empty range (memcpy on possibly-null pointers with length 0)",
         "FixedSizeRing::rbegin()/rend() const (no return statement) are only called in the sanitizer build, where UBSan stops the process deterministically",
-        "a non-returning operation is detected by thread CPU time (3 s without completing one operation on <= a few hundred elements), never by wall-clock",
+        "a non-returning operation is detected by thread CPU time (2 s without completing one operation on <= a few hundred elements), never by wall-clock",
         "not monitorable at run time because they do not compile when used: LazyArray::at, flat_map::upper_bound/equal_range/operator==, optional<T>(optional<U>), InsertBag::begin()/end() const and InsertBag::const_iterator",
     ],
 )
